@@ -9,6 +9,8 @@ R18.2  for shared memories the grow path performs no realloc and no store to `da
 R18.3  lock/unlock are balanced on every path; failed grows store nothing (see also C05 R05.3)
 R18.4  one descriptor per shared memory: the emitted InitMemories gives a child instance (NewChild, used by thread-spawn) the
        parent's descriptor itself, never a copy - page counter, size and mutex are shared by all threads
+R18.6  every runtime function that takes the memory mutex (both atomics configurations) releases it exactly as often as it took it on
+       every path and never releases it while not holding it
 R18.5  wasmMemoryAllocate records the shared flag exactly as declared and initialises the mutex of every shared memory
 """
 from .. import astdb, pe, emit, oracle, templates, runtime, ctyperules as ct, memrules as mr
@@ -143,6 +145,62 @@ def check_all_descriptor_readers(chk):
                    '%s:unlocked-%s' % (name, bad[0][1] if bad else 'field'), bad[0][2] if bad else None)
 
 
+def check_mutex_discipline(chk):
+    """R18.6: the memory mutex serialises grow/size with every other holder - each function of the runtime header that locks or unlocks
+    it (found by its calls, in the lock-free and in the mutex-based atomics configuration) is summarised with a shared memory: on every
+    path the mutex is released exactly as often as it was taken and never released while not held (releasing a mutex another thread
+    holds lets a second grower into the critical section)"""
+    from ..astdb import walk, kids
+    n = 0
+    for cfg in ('le', 'be'):
+        htu = runtime.header(cfg)
+        for name, f in sorted(htu.functions.items()):
+            body = astdb.fn_body(f)
+            if body is None or not (astdb.file_of(f) or '').endswith('w2c2_base.h'):
+                continue
+            calls = {astdb.callee_name(c) for c in walk(body) if c.get('kind') == 'CallExpr'}
+            if not calls & {'pthread_mutex_lock', 'pthread_mutex_unlock', 'EnterCriticalSection', 'LeaveCriticalSection'}:
+                continue
+            params = astdb.fn_params(f)
+            takes_mem = [i for i, p_ in enumerate(params) if 'wasmMemory' in htu.desugar(astdb.qtype(p_))]
+            if not takes_mem:
+                continue
+
+            def mk(it, params=params, takes_mem=takes_mem):
+                args = []
+                for i, p_ in enumerate(params):
+                    if i in takes_mem:
+                        args.append(Ptr({'v': runtime.memory_record(it, shared=True)}, 'v'))
+                    else:
+                        args.append(unk(p_.get('name', 'p%d' % i), htu.desugar(astdb.qtype(p_))))
+                return args, {}
+            try:
+                paths = runtime.summarize(htu, name, mk)
+            except Exception as e:
+                from ..astdb import AnalysisBroken
+                raise AnalysisBroken('%s@%s: %s' % (name, cfg, e))
+            bad = None
+            for p in paths:
+                if p.aborted:
+                    continue
+                held = 0
+                for ev, args, loc in p.events:
+                    if ev == 'lock':
+                        held += 1
+                    elif ev == 'unlock':
+                        held -= 1
+                        if held < 0 and bad is None:
+                            bad = 'releases the memory mutex without holding it at %s (path %s)' % (loc, p.cond_text()[:100])
+                if held != 0 and bad is None:
+                    bad = 'returns with the memory mutex %s (path %s)' % ('still held' if held > 0 else 'over-released', p.cond_text()[:100])
+            n += 1
+            chk.expect(bad is None, 'R18.6', '%s@%s:mutex-balanced' % (name, cfg),
+                       '%s (%s configuration) %s: the same mutex protects memory.grow / memory.size of a shared memory, so a concurrent grow '
+                       'is no longer exclusive (duplicate old sizes, lost updates)' % (name, 'mutex-based atomics' if cfg == 'be' else 'default', bad),
+                       'runtime/%s@%s:mutex' % (name, cfg))
+    chk.require(n >= 20, 'only %d runtime functions take the memory mutex' % n)
+
+
 def check_size_template(chk):
     tus = emit.translator_tus(('c.c', 'opcode.c', 'instruction.c'), chk=chk)
     it = emit.make_interp(tus)
@@ -199,6 +257,8 @@ def run(chk):
     check_grow(chk)
     check_size_template(chk)
     check_all_descriptor_readers(chk)
+    check_mutex_discipline(chk)
+    chk.floor('R18.6', 20)
     # one descriptor per shared memory: thread instances alias the creator's descriptor (rule shared with C06 R06.4)
     from . import c06
     c06.check_shared_descriptor(chk, emit.translator_tus(('c.c', 'opcode.c', 'instruction.c'), chk=chk), 'R18.4')
